@@ -153,6 +153,9 @@ pub fn install_hidden_probe(exec: &Exec, targets: &[Target<'_>], arena: &Arena) 
 	}));
 }
 
+/// Longest execution (in scheduling points) a fixed program may have before it counts as a livelock.
+const MAX_PATH: usize = 1500;
+
 fn snapshot(g: &Inner, targets: &[Target<'_>], arena: &Arena, cfg: &Cfg) -> Snap {
 	let mut parts: Vec<u64> = vec![];
 	let mut enabled = vec![];
@@ -385,6 +388,16 @@ impl<'p> Search<'p> {
 				self.stats.completions += 1;
 			}
 			return Decision::Run(c.0 as usize, c.1);
+		}
+		if self.prog.menu.is_empty() && self.path.len() > MAX_PATH {
+			// fixed programs terminate; on the unchanged tree the longest path is below 100 points. A path this long
+			// means some thread keeps issuing operations without making progress (a spin on a try, for instance)
+			self.found.push(Found {
+				violation: Violation { prop: "C01", key: format!("livelock|{}", self.prog.name), detail: format!("an execution of a finite program exceeded {} scheduling points: {}", MAX_PATH, snap.unfinished.join("; ")) },
+				schedule: self.path.clone(),
+			});
+			self.work.clear();
+			return Decision::Stop;
 		}
 		if cfg.depth_cap > 0 && self.path.len() >= cfg.depth_cap {
 			self.stats.depth_cap_hits += 1;
